@@ -6,6 +6,7 @@ import (
 
 	"github.com/form3tech-oss/f1/v2/internal/metrics"
 	"github.com/form3tech-oss/f1/v2/pkg/f1"
+	"github.com/form3tech-oss/f1/v2/pkg/f1/scenarios"
 	f1testing "github.com/form3tech-oss/f1/v2/pkg/f1/testing"
 	"github.com/form3tech-oss/f1/v2/verifharness/core"
 	"github.com/form3tech-oss/f1/v2/verifharness/engine"
@@ -42,6 +43,10 @@ func init() {
 			var cs []core.Case
 			for i := 0; i < n; i++ {
 				p := c20Params{Conc: pick(r, 1, 4), N: 6 + r.IntN(10), Mode: pick(r, "users", "users", "constant")}
+				if i%10 == 9 {
+					// iterations that outlive a config-file stage: the next stage's pool starts while they run
+					p.Mode, p.Conc, p.N = "filespan", pick(r, 1, 2), 30+r.IntN(20)
+				}
 				nc := 1 + r.IntN(8)
 				setupFault := r.IntN(4) == 0
 				for k := 0; k < nc; k++ {
@@ -86,6 +91,13 @@ func c20Run(c *core.Case, o *core.Outcome) {
 				engine.Behave(t, cp.Setup)
 			}
 			return func(t *f1testing.T) {
+				if p.Mode == "filespan" && i == 0 {
+					id := t.Iteration
+					engine.SpanSleep(engine.IDOf(t))
+					if t.Iteration != id {
+						cur.l.Add("relabel", engine.HandleID(t), id, 0, t.Iteration)
+					}
+				}
 				cur.l.Add("iter", engine.HandleID(t), t.Iteration, int64(i), "")
 				if cp.Iter != engine.BPass && engine.IDOf(t)%uint64(cp.Period) == 0 {
 					if cp.Timed {
@@ -100,24 +112,28 @@ func c20Run(c *core.Case, o *core.Outcome) {
 	var spec engine.Spec
 	if p.Mode == "users" {
 		spec = engine.Spec{Mode: "users", Concurrency: p.Conc, MaxDurationMS: 60000}
+	} else if p.Mode == "filespan" {
+		spec = engine.FileSpanSpec(p.Conc, uint64(p.N))
 	} else {
 		spec = engine.RateSpec("constant", p.Conc, 5, p.Conc)
 	}
 	spec.MaxIterations = uint64(p.N)
 	spec.IgnoreDropped = true
 	combined := f1.CombineScenarios(comps...)
+	// consecutive runs share the registered scenario object, as with one f1.F1 instance executed twice
+	reg := scenarios.New()
 	for rep := 1; rep <= max(p.Reps, 1) && o.Verdict == core.Held; rep++ {
 		cur.l = engine.NewLog()
-		c20Once(c, o, &p, spec, cur.l, combined, rep)
+		c20Once(c, o, &p, spec, cur.l, combined, rep, reg)
 	}
 }
 
 type c20Cur struct{ l *engine.Log }
 
-func c20Once(c *core.Case, o *core.Outcome, p *c20Params, spec engine.Spec, l *engine.Log, combined f1testing.ScenarioFn, rep int) {
+func c20Once(c *core.Case, o *core.Outcome, p *c20Params, spec engine.Spec, l *engine.Log, combined f1testing.ScenarioFn, rep int, reg *scenarios.Scenarios) {
 	ctx, cancel := context.WithCancel(context.Background())
 	defer cancel()
-	r := engine.Execute(ctx, spec, l, combined, nil, nil)
+	r := engine.Execute(ctx, spec, l, combined, &engine.Hooks{Registry: reg}, nil)
 	if r.NewErr != nil {
 		o.Inconc("harness: cannot build run: %v", r.NewErr)
 		return
@@ -152,6 +168,9 @@ func c20Once(c *core.Case, o *core.Outcome, p *c20Params, spec engine.Spec, l *e
 	order := []string{}
 	for _, e := range evs {
 		switch e.Kind {
+		case "relabel":
+			o.Violate(key, "the handle of iteration %s was relabelled to iteration %s while component 0 was still running: two iterations share one handle (%s)", e.ID, e.S, desc)
+			return
 		case "setup":
 			if int(e.V) != setupsSeen {
 				o.Violate(key, "setup of component %d ran at position %d (%s)", e.V, setupsSeen, desc)
